@@ -221,46 +221,50 @@ func c11Run(c *engine.Ctx) {
 	if c.Thorough() {
 		rec(gridN(4, 2), 4, 5, nil)
 	}
-	c.Note("rings", len(jobs))
-	off := math.Ldexp(1, 26)
-	c.Parallel(len(jobs), func(i int) {
-		j := jobs[i]
-		ring := make([]ref.F, 0, 2*len(j.verts)+2)
-		for _, v := range j.verts {
-			ring = append(ring, ref.F(v[0]), ref.F(v[1]))
-		}
-		ring = append(ring, ring[0], ring[1])
-		q := 2*j.n - 1
-		for x := 0; x < q; x++ {
-			for y := 0; y < q; y++ {
-				c11Exec(c, c11Case{Mode: "ring", Ring: ring, P: []ref.F{ref.F(x), ref.F(y)}, Layout: geom.XY})
-				if x%2 == 0 && y%2 == 0 {
-					// the vertex lattice again in layouts whose extra ordinates differ between the
-					// query point and the vertices
-					l, tags := geom.XYZ, 1+(x/2+y/2+len(j.verts))%2
-					if (x/2+len(j.verts))%2 == 0 {
-						l = geom.XYZM
+	// (the exhaustive enumeration over these rings is by far the largest phase; it runs LAST so
+	// that a run cut short by its deadline on a busy machine has covered every other family)
+	exhaustiveRings := func() {
+		c.Note("rings", len(jobs))
+		off := math.Ldexp(1, 26)
+		c.Parallel(len(jobs), func(i int) {
+			j := jobs[i]
+			ring := make([]ref.F, 0, 2*len(j.verts)+2)
+			for _, v := range j.verts {
+				ring = append(ring, ref.F(v[0]), ref.F(v[1]))
+			}
+			ring = append(ring, ring[0], ring[1])
+			q := 2*j.n - 1
+			for x := 0; x < q; x++ {
+				for y := 0; y < q; y++ {
+					c11Exec(c, c11Case{Mode: "ring", Ring: ring, P: []ref.F{ref.F(x), ref.F(y)}, Layout: geom.XY})
+					if x%2 == 0 && y%2 == 0 {
+						// the vertex lattice again in layouts whose extra ordinates differ between the
+						// query point and the vertices
+						l, tags := geom.XYZ, 1+(x/2+y/2+len(j.verts))%2
+						if (x/2+len(j.verts))%2 == 0 {
+							l = geom.XYZM
+						}
+						if y%4 == 0 {
+							l = geom.XYM
+						}
+						c11Exec(c, c11Case{Mode: "ring", Ring: ring, P: []ref.F{ref.F(x), ref.F(y)}, Layout: l, Tags: tags})
 					}
-					if y%4 == 0 {
-						l = geom.XYM
+					if len(j.verts) == 3 && (x+y)%2 == 0 {
+						// translated copy with extra ordinates
+						tr := make([]ref.F, len(ring))
+						for k := range ring {
+							tr[k] = ring[k] + ref.F(off)
+						}
+						l := geom.XYZ
+						if (x+y)%4 == 0 {
+							l = geom.XYZM
+						}
+						c11Exec(c, c11Case{Mode: "ring", Ring: tr, P: []ref.F{ref.F(float64(x) + off), ref.F(float64(y) + off)}, Layout: l})
 					}
-					c11Exec(c, c11Case{Mode: "ring", Ring: ring, P: []ref.F{ref.F(x), ref.F(y)}, Layout: l, Tags: tags})
-				}
-				if len(j.verts) == 3 && (x+y)%2 == 0 {
-					// translated copy with extra ordinates
-					tr := make([]ref.F, len(ring))
-					for k := range ring {
-						tr[k] = ring[k] + ref.F(off)
-					}
-					l := geom.XYZ
-					if (x+y)%4 == 0 {
-						l = geom.XYZM
-					}
-					c11Exec(c, c11Case{Mode: "ring", Ring: tr, P: []ref.F{ref.F(float64(x) + off), ref.F(float64(y) + off)}, Layout: l})
 				}
 			}
-		}
-	})
+		})
+	}
 	// rings with many vertices: lattice hulls (convex) and combs (many horizontal and vertical
 	// edges, vertices level with the query points), queried at every vertex, every edge midpoint
 	// and a grid of other points (coordinates doubled so that midpoints are representable)
@@ -423,4 +427,5 @@ func c11Run(c *engine.Ctx) {
 			c.Warn("vacuous: class " + k + " is empty")
 		}
 	}
+	exhaustiveRings()
 }
